@@ -136,7 +136,25 @@ func c08Exec(k *c08Case) *c08Outcome {
 				// any audit record type the kernel multicasts / unicasts to the audit daemon: the old kernel-side
 				// user and login records (1005, 1006) as well as the 11xx-24xx ranges
 				typ := c08EventTypes[(int(k.Seed)+dgIndex*3+i)%len(c08EventTypes)]
-				st = append(st, simkernel.Step{Dgram: simkernel.Event(typ, fmt.Sprintf("audit(1.000:%d): unsolicited", i))})
+				// the record text may be very short (0, 1, 10, 15 bytes), and the kernel's unicast records carry the
+				// PAYLOAD length in nlmsg_len (not header + payload): half of the events use that convention
+				text := fmt.Sprintf("audit(1.000:%d): unsolicited", i)
+				v := (int(k.Seed&0xffff) + dgIndex*5 + i*7) % 10
+				switch v {
+				case 1, 6:
+					text = ""
+				case 2, 7:
+					text = "x"
+				case 3, 8:
+					text = text[:10]
+				case 4, 9:
+					text = text[:15]
+				}
+				ev := simkernel.Event(typ, text)
+				if v >= 5 {
+					binary.LittleEndian.PutUint32(ev[0:], uint32(len(text)))
+				}
+				st = append(st, simkernel.Step{Dgram: ev})
 			}
 			st = append(st, burstSteps(b)...)
 		}
